@@ -116,8 +116,12 @@ func (c *Ctx) analyseLazySites(fi *FuncInfo, sources map[string]string) []*lazyS
 				}
 			}
 			if is, ok := pm[as].(*ast.IfStmt); ok && is.Init == as {
-				if be, ok := unparen(is.Cond).(*ast.BinaryExpr); ok && be.Op == token.NEQ && isNilIdent(info, be.Y) {
-					if id, ok := unparen(be.X).(*ast.Ident); ok && info.Uses[id] == s.obj {
+				if be, ok := unparen(is.Cond).(*ast.BinaryExpr); ok && be.Op == token.NEQ {
+					x, y := be.X, be.Y
+					if isNilIdent(info, x) {
+						x, y = y, x
+					}
+					if id, ok := unparen(x).(*ast.Ident); ok && isNilIdent(info, y) && info.Uses[id] == s.obj {
 						s.ifStmt = is
 					}
 				}
